@@ -425,23 +425,23 @@ func lookupFunc(pkg *types.Package, name string) *types.Func {
 func checkSinkProvenance(p *Program, r *Report, gates map[*types.TypeName]bool) {
 	type sanitizerSpec struct{ name string }
 	okCalls := map[string]string{
-		"html.EscapeString":                                  "HTML escaper",
-		"encoding/json.Marshal":                              "JSON encoder (HTML-safe)",
-		pkgUtil + ".QueryEscapeURL":                          "percent-encoder",
-		modulePath + ".cssEscapeString":                      "CSS string escaper",
-		modulePath + ".filter":                               "value filter",
-		"(flag.Value).String":                                "configuration source (flag)",
-		"invoke:(flag.Value).String":                         "configuration source (flag)",
-		"os.Getenv":                                          "configuration source (environment variable named by a constant)",
-		"os.DirFS":                                           "file system rooted at a trusted source",
-		"io/fs.Sub":                                          "sub-tree of a trusted file system",
-		"(*bytes.Buffer).String":                             "locally built buffer (its writes are checked by the property of that constructor)",
-		"fmt.Sprintf":                                        "format with checked operands",
-		"fmt.Sprint":                                         "stringification",
-		"path/filepath.Join":                                 "path join of trusted elements",
-		"strings.Join":                                       "join of checked parts",
-		"(*regexp.Regexp).ReplaceAllStringFunc":              "marker substitution (C13.R2)",
-		modulePath + "/template.trustedSourcesToStrings":     "contents of TrustedSource values",
+		"html.EscapeString":                     "HTML escaper",
+		"encoding/json.Marshal":                 "JSON encoder (HTML-safe)",
+		pkgUtil + ".QueryEscapeURL":             "percent-encoder",
+		modulePath + ".cssEscapeString":         "CSS string escaper",
+		modulePath + ".filter":                  "value filter",
+		"(flag.Value).String":                   "configuration source (flag)",
+		"invoke:(flag.Value).String":            "configuration source (flag)",
+		"os.Getenv":                             "configuration source (environment variable named by a constant)",
+		"os.DirFS":                              "file system rooted at a trusted source",
+		"io/fs.Sub":                             "sub-tree of a trusted file system",
+		"(*bytes.Buffer).String":                "locally built buffer (its writes are checked by the property of that constructor)",
+		"fmt.Sprintf":                           "format with checked operands",
+		"fmt.Sprint":                            "stringification",
+		"path/filepath.Join":                    "path join of trusted elements",
+		"strings.Join":                          "join of checked parts",
+		"(*regexp.Regexp).ReplaceAllStringFunc": "marker substitution (C13.R2)",
+		modulePath + "/template.trustedSourcesToStrings": "contents of TrustedSource values",
 	}
 	// constructors whose dynamic string parameters are validated by a dedicated property
 	validated := map[string]string{
